@@ -244,7 +244,82 @@ def check_crystal(part, spec):
     part.dev("max_length_over_perp_width", obliq)
 
 
+def exact_shell_worker(part, spec):
+    """
+    lattice-aligned atoms and radii that equal a lattice distance exactly (all arithmetic exact in binary floating point):
+    neighbours come in shells of symmetry-equivalent images at one distance.  Shells clearly inside the radius are complete,
+    shells clearly outside are absent, and the shell AT the radius is treated uniformly - all of it or none of it - since
+    membership depends on the distance alone.
+    """
+    import itertools
+
+    cell, sites, radii = spec["cell"], spec["sites"], spec["radii"]
+    from chmpy.crystal import Crystal, UnitCell
+
+    # the cell is given by exact lattice vectors (from lengths and angles cos(90 deg) = 6e-17 would leak into the positions)
+    c0 = xtal.make_crystal(1, "", tuple(cell) + (90.0, 90.0, 90.0), ["Ar"] * len(sites), np.array(sites, dtype=float))
+    c = Crystal(UnitCell(np.diag(np.array(cell, dtype=float))), c0.space_group, c0.asymmetric_unit)
+    M = np.asarray(c.unit_cell.direct, dtype=float)
+    if not np.array_equal(M, np.diag(np.array(cell, dtype=float))):
+        part.skip("lattice vectors not kept exactly")
+        return
+    label = "P1 %s, sites %s" % (list(cell), sites)
+    for radius in radii:
+        n = [int(radius // x) + 2 for x in cell]
+        imgs = []
+        for si, sf in enumerate(sites):
+            for t in itertools.product(*[range(-k, k + 1) for k in n]):
+                imgs.append((si, np.array(t), (np.array(sf) + np.array(t)) * np.array(cell)))
+        for query in ("atomic_surroundings", "atoms_in_radius"):
+            part.ev()
+            part.tr()
+            case = {"kind": "exact", "cell": list(cell), "sites": [list(x) for x in sites], "radii": [radius], "query": query}
+            try:
+                if query == "atomic_surroundings":
+                    got = c.atomic_surroundings(radius=radius)
+                    results = [(np.array(sites[i]) * np.array(cell), np.asarray(g["neighbours"]["cart_pos"]), True) for i, g in enumerate(got)]
+                else:
+                    cen = np.array(sites[0]) * np.array(cell)
+                    results = [(cen, np.asarray(c.atoms_in_radius(radius, origin=tuple(cen))["cart_pos"]), False)]
+            except Exception as e:
+                part.fail("exact-shell:raise:" + query, "%s(%g) raised %r [%s]" % (query, radius, e, label), case)
+                continue
+            for cen, pos, excl_self in results:
+                shells = {}
+                for si, t, p in imgs:
+                    d = float(np.linalg.norm(p - cen))
+                    if excl_self and d < 1e-9:
+                        continue
+                    if d <= radius + max(cell):
+                        shells.setdefault(round(d, 9), []).append(p)
+                rep = {tuple(np.round(p, 6)) for p in pos.reshape(-1, 3)}
+                for d, members in sorted(shells.items()):
+                    present = sum(1 for p in members if tuple(np.round(p, 6)) in rep)
+                    if d < radius - 1e-9 and present != len(members):
+                        part.fail("exact-shell:missing:" + query, "%s(r=%g) in %s: %d of the %d atoms at distance %g are missing" % (query, radius, label, len(members) - present, len(members), d), case)
+                    elif d > radius + 1e-9 and present:
+                        part.fail("exact-shell:extra:" + query, "%s(r=%g) in %s: %d atoms at distance %g are reported" % (query, radius, label, present, d), case)
+                    elif abs(d - radius) <= 1e-9 and present not in (0, len(members)) and all(float(np.linalg.norm(p - cen)) == radius for p in members):
+                        part.fail("exact-shell:boundary-not-uniform:" + query, "%s(r=%g) in %s: %d of the %d equivalent atoms at distance exactly %g are reported, the others are not"
+                                  % (query, radius, label, present, len(members), d), case)
+                part.outcome(("exact", query, len(rep)))
+    part.nstates(1)
+
+
+EXACT_SPECS = [
+    {"cell": (4.0, 4.0, 4.0), "sites": [(0.0, 0.0, 0.0)], "radii": [4.0, 8.0, 12.0, 5.0]},
+    {"cell": (4.0, 4.0, 4.0), "sites": [(0.0, 0.0, 0.0), (0.5, 0.5, 0.5)], "radii": [4.0, 8.0, 2.0, 6.0]},
+    {"cell": (4.0, 4.0, 6.0), "sites": [(0.0, 0.0, 0.0), (0.5, 0.0, 0.5)], "radii": [4.0, 6.0, 8.0, 12.0, 5.0]},
+    {"cell": (3.0, 4.0, 5.0), "sites": [(0.0, 0.0, 0.0)], "radii": [3.0, 4.0, 5.0, 6.0, 8.0, 10.0, 13.0]},
+    {"cell": (3.0, 4.0, 5.0), "sites": [(0.5, 0.5, 0.5), (0.0, 0.5, 0.0)], "radii": [3.0, 4.0, 5.0, 2.5]},
+    {"cell": (2.0, 8.0, 16.0), "sites": [(0.0, 0.0, 0.0), (0.5, 0.25, 0.125)], "radii": [2.0, 8.0, 16.0, 10.0]},
+]
+
+
 def worker(part, spec):
+    if spec.get("kind") == "exact":
+        exact_shell_worker(part, spec)
+        return
     check_crystal(part, spec)
     if spec.get("label", "").startswith("atoms5:1:"):
         part.sample({k: v for k, v in spec.items() if not k.startswith("_")})
@@ -297,6 +372,8 @@ def run(ctx):
                        "atoms_in_radius: the 'origin' is interpreted as a Cartesian point (the code's behaviour); the property only says 'point'",
                        "inputs keep atoms out of the 1e-6 A ambiguity band around the radius only by genericity; the band absorbs rounding"]
     specs.sort(key=lambda s: -(len(s["radii"]) * (5 if s["kind"] != "atoms5" else 1)))
+    specs += [dict(e, kind="exact", cell=list(e["cell"]), sites=[list(x) for x in e["sites"]]) for e in EXACT_SPECS]
+    ctx.bounds["exact_shell_cases"] = "%d lattice-aligned P1 structures x radii equal to exact lattice distances x {atomic_surroundings, atoms_in_radius}" % len(EXACT_SPECS)
     ctx.pmap(worker, specs)
 
 
@@ -304,6 +381,9 @@ def replay(ctx, case):
     table = symm.load_table()
     rows = {(r["number"], r["choice"]): r for r in table}
     spec = dict(case)
+    if spec["kind"] == "exact":
+        exact_shell_worker(ctx, spec)
+        return
     if spec["kind"] == "mol":
         spec["_row"] = rows[(spec["number"], spec["choice"])]
     q = spec.get("query", "")
